@@ -47,6 +47,10 @@ def grid(tier):
     for n in (65535, 65536, 65537, 65540):
         for dim in ("slots1", "parameters1", "domains-explicit-decision", "views"):
             pts.append(["sizes", n, 0, dim, "bc"])
+    from mc.capworker import VALUE_CASES
+    for i, name in enumerate(VALUE_CASES):  # value ranges around the 32-bit storage of domains, offsets and parameters
+        for domh in ("min", "max", "split_low", "mid"):
+            pts.append(["values", i, 0, name, domh])
     seen, out = set(), []
     for p in pts:
         if tuple(p) not in seen:
@@ -126,6 +130,8 @@ def judge(acc, pt, mode, r):
     need = n if heur not in ("mid", "min_cost3") else 2 * n
     if kind == "chain" and need + 1 > h:
         acc.c["nt_points_beyond_capacity"] += 1
+    if kind == "values":
+        acc.c["nt_value_range_points"] += 1
     ok = outcome == "correct" or (outcome.startswith("raised:") and outcome != "raised:IndexError")
     if not ok:
         cls = outcome.split(":")[0]
@@ -159,12 +165,12 @@ def run(tier, seed):
         "states": n, "transitions": n, "traces_validated_against_impl": n,
         "grid_points": len(pts), "refusals_observed": acc.c["nt_refusals"], "exhaustive": True,
         "bounds": f"tier={tier}: heights {{1,2,3,4,5,8,16,{'32,128,' if tier == 'thorough' else ''}255,256}} x depths h-3..h+2, heights "
-                  "{0,257,300,512,1000}; 255/256/257 propagators; 65535/65536/65537 variables, propagator-variable slots, parameters; 65535..65540 slots / parameters made of arity-1 / one-parameter propagators, shared domains with explicit decision domains, views",
+                  "{0,257,300,512,1000}; 255/256/257 propagators; 65535/65536/65537 variables, propagator-variable slots, parameters; 65535..65540 slots / parameters made of arity-1 / one-parameter propagators, shared domains with explicit decision domains, views; 15 declarations with domain bounds / view sums / offsets / parameters just inside and beyond int32 x 4 value heuristics",
     }
     return finish(PROP, tier, seed, "exploration", acc, cov,
                   ["a finite grid is enumerated completely; nothing is claimed beyond it",
                    "the chain model x_i <= x_{i+1} has a solution set known in closed form"],
-                  t0, vacuity={"nt_points_beyond_capacity": 50, "nt_refusals": 20})
+                  t0, vacuity={"nt_points_beyond_capacity": 50, "nt_refusals": 20, "nt_value_range_points": 100})
 
 
 def replay(entry):
